@@ -41,18 +41,25 @@ type world struct {
 	// collision classes present (known findings are keyed on them).
 	collide int
 	hot     string // the run's "hot" host: generators pick it half of the time so that several objects meet on one host
-	worst   int // worst collision class that ever existed during the history (0 unique, 1 duphost, 2 dupns)
+	worst   int    // worst collision class that ever existed during the history (0 unique, 1 duphost, 2 dupns)
 	exists  map[string]config.Config
-	kinds  []string // enabled kinds for this run
-	seq    int
-	kube   *kubeWorld
+	kinds   []string // enabled kinds for this run
+	seq     int
+	kube    *kubeWorld
 	// recipe: a short scripted sequence of mutations aimed at one mechanism of the properties (rule precedence
 	// switch, export flip, mTLS flip); instantiated now and then between the random mutations
 	recipe []func(tp *engine.Tape) mutation
 	// meshOn: this run's history includes mesh configuration reloads (a forced global push each); mesh = current variant
 	meshOn bool
 	mesh   int
+	// als: the mesh's access-log-service extension provider "als" points at host als.example.com. 0 = the run never
+	// uses it; 1 = it is used and its backing ServiceEntry is visible to every proxy whenever it exists (exported to
+	// "*", imported by every Sidecar); 2 = visibility is unrestricted, runs are tagged "+alshidden" (known finding:
+	// the provider's service is resolved mesh-wide, a proxy that cannot see it is not re-pushed when it appears).
+	als int
 }
+
+const alsHost = "als.example.com"
 
 var allConfigKinds = []string{
 	"ServiceEntry", "DestinationRule", "VirtualService", "Sidecar", "PeerAuthentication", "AuthorizationPolicy",
@@ -62,9 +69,9 @@ var allConfigKinds = []string{
 func newWorld(tp *engine.Tape, kinds []string) *world {
 	wd := &world{exists: map[string]config.Config{}}
 	switch c := tp.Choose(20, "collide"); {
-	case c < 10:
+	case c < 14:
 		wd.collide = 0
-	case c < 17:
+	case c < 18:
 		wd.collide = 1
 	default:
 		wd.collide = 2
@@ -81,6 +88,9 @@ func newWorld(tp *engine.Tape, kinds []string) *world {
 		wd.meshOn = tp.Bool(1, 2, "meshOn")
 	} else {
 		wd.kinds = kinds
+	}
+	if contains(wd.kinds, "Telemetry") {
+		wd.als = []int{0, 1, 1, 2}[tp.Choose(4, "als")]
 	}
 	return wd
 }
@@ -343,6 +353,14 @@ func (wd *world) genSpec(tp *engine.Tape, kind, ns, name string) config.Spec {
 		if len(eg.Hosts) == 0 {
 			eg.Hosts = []string{"./*"}
 		}
+		if wd.als == 1 { // every Sidecar imports the access-log service
+			if eg.Hosts[0] == "~/*" {
+				eg.Hosts = []string{"./*"}
+			}
+			if !contains(eg.Hosts, "*/*") {
+				eg.Hosts = append(eg.Hosts, "*/"+alsHost)
+			}
+		}
 		sc.Egress = []*networking.IstioEgressListener{eg}
 		if tp.Bool(1, 4, "portlistener") {
 			sc.Egress = append(sc.Egress, &networking.IstioEgressListener{
@@ -382,7 +400,7 @@ func (wd *world) genSpec(tp *engine.Tape, kind, ns, name string) config.Spec {
 	case "Telemetry":
 		tl := &telemetry.Telemetry{Selector: pickSelector(tp)}
 		tl.AccessLogging = []*telemetry.AccessLogging{{
-			Providers: []*telemetry.ProviderRef{{Name: []string{"envoy", "als"}[tp.Choose(2, "provider")]}},
+			Providers: []*telemetry.ProviderRef{{Name: []string{"envoy", "als"}[min(wd.als, 1)*tp.Choose(2, "provider")]}},
 			Disabled:  wrapperspb.Bool(tp.Bool(1, 2, "disabled")),
 		}}
 		return tl
@@ -490,7 +508,11 @@ func (wd *world) everTags() string {
 	if cur > wd.worst {
 		wd.worst = cur
 	}
-	return []string{"unique", "duphost", "dupns"}[wd.worst]
+	t := []string{"unique", "duphost", "dupns"}[wd.worst]
+	if wd.als == 2 {
+		t += "+alshidden"
+	}
+	return t
 }
 
 // put creates or updates one object through the ordinary bookkeeping.
@@ -530,6 +552,16 @@ func (wd *world) startRecipe(tp *engine.Tape) {
 	if h == "" || h[0] == '*' {
 		h = "a.example.com"
 	}
+	// recipes run only in the "unique" stratum: the first step (always the ServiceEntry) settles the host so that
+	// the recipe's slot does not meet another declaration of it, including one left behind by an earlier recipe
+	settle := func(ns, name string) {
+		for _, alt := range []string{"recipe.example.com", name + ".uniq.example.com"} {
+			if wd.hostAllowed(h, ns, name) {
+				return
+			}
+			h = alt
+		}
+	}
 	lbs := []*networking.LoadBalancerSettings{
 		{LbPolicy: &networking.LoadBalancerSettings_Simple{Simple: networking.LoadBalancerSettings_ROUND_ROBIN}},
 		{LocalityLbSetting: &networking.LocalityLoadBalancerSetting{Distribute: []*networking.LocalityLoadBalancerSetting_Distribute{
@@ -548,7 +580,10 @@ func (wd *world) startRecipe(tp *engine.Tape) {
 		lo, hi := tp.Choose(3, "lbLow"), tp.Choose(3, "lbHigh")
 		od := &networking.OutlierDetection{Consecutive_5XxErrors: wrapperspb.UInt32(3)}
 		wd.recipe = []func(tp *engine.Tape) mutation{
-			func(tp *engine.Tape) mutation { return wd.put("ServiceEntry", "a", "se1", se(nil), 0) },
+			func(tp *engine.Tape) mutation {
+				settle("a", "se1")
+				return wd.put("ServiceEntry", "a", "se1", se(nil), 0)
+			},
 			func(tp *engine.Tape) mutation {
 				return wd.put("DestinationRule", "istio-system", "dr3", &networking.DestinationRule{Host: h, TrafficPolicy: &networking.TrafficPolicy{LoadBalancer: lbs[lo], OutlierDetection: od}}, 0)
 			},
@@ -564,7 +599,10 @@ func (wd *world) startRecipe(tp *engine.Tape) {
 		}
 	case 1: // export flip: the service disappears from and returns to the other namespaces
 		wd.recipe = []func(tp *engine.Tape) mutation{
-			func(tp *engine.Tape) mutation { return wd.put("ServiceEntry", "b", "se3", se([]string{"*"}), 0) },
+			func(tp *engine.Tape) mutation {
+				settle("b", "se3")
+				return wd.put("ServiceEntry", "b", "se3", se([]string{"*"}), 0)
+			},
 			func(tp *engine.Tape) mutation {
 				return wd.put("VirtualService", "a", "vs1", &networking.VirtualService{Hosts: []string{h}, Http: []*networking.HTTPRoute{{Route: []*networking.HTTPRouteDestination{{Destination: &networking.Destination{Host: h}}}}}}, 0)
 			},
@@ -573,7 +611,10 @@ func (wd *world) startRecipe(tp *engine.Tape) {
 		}
 	case 2: // mTLS flip by PeerAuthentication at namespace level, with a subset rule in place
 		wd.recipe = []func(tp *engine.Tape) mutation{
-			func(tp *engine.Tape) mutation { return wd.put("ServiceEntry", "a", "se1", se(nil), 0) },
+			func(tp *engine.Tape) mutation {
+				settle("a", "se1")
+				return wd.put("ServiceEntry", "a", "se1", se(nil), 0)
+			},
 			func(tp *engine.Tape) mutation {
 				return wd.put("DestinationRule", "a", "dr1", &networking.DestinationRule{Host: h, Subsets: []*networking.Subset{{Name: "v1", Labels: map[string]string{"version": "v1"}}}}, 0)
 			},
@@ -602,6 +643,20 @@ func (wd *world) next(tp *engine.Tape) mutation {
 	wd.seq++
 	if wd.kube != nil && tp.Bool(wd.kube.weight, 10, "kubemut") {
 		return wd.kube.next(tp, wd.seq)
+	}
+	if wd.als > 0 && tp.Bool(1, 8, "alsmut") {
+		if _, ok := wd.exists["ServiceEntry/istio-system/se-als"]; ok && tp.Bool(1, 3, "alsdel") {
+			return wd.del("ServiceEntry", "istio-system", "se-als")
+		}
+		exp := []string{"*"}
+		if wd.als == 2 {
+			exp = pickExportTo(tp)
+		}
+		port := []uint32{80, 80, 8080}[tp.Choose(3, "alsport")] // the provider names port 80
+		return wd.put("ServiceEntry", "istio-system", "se-als", &networking.ServiceEntry{Hosts: []string{alsHost}, ExportTo: exp,
+			Ports:    []*networking.ServicePort{{Number: port, Name: "grpc", Protocol: "GRPC"}},
+			Location: networking.ServiceEntry_MESH_INTERNAL, Resolution: networking.ServiceEntry_STATIC,
+			Endpoints: []*networking.WorkloadEntry{{Address: "10.9.9.1"}}}, 0)
 	}
 	if wd.meshOn && tp.Bool(1, 10, "meshmut") {
 		wd.mesh = (wd.mesh + 1 + tp.Choose(7, "meshvariant")) % 8
